@@ -76,7 +76,13 @@ def _rest(ctx, fc, C):
               "cloning resolved links would share frames between original and clone")
     frc = ctx.fn("framing", "Framer.clone")
     R = FuncView(ctx, frc)
-    ar = R.need(R.call_nodes("assignRegistries"), "assignRegistries() in Framer.clone")
+    ar = R.call_nodes("assignRegistries")
+    ctx.check(bool(ar), "T9-names", frc, "Framer.clone binds its house's registries (assignRegistries()) before it looks names up",
+              "clone() also runs at run time (Rearer) while another house's registries may be current: the duplicate-name test and "
+              "the registration of the clone then use that other house's Framer.Names - the clone lands in the wrong house and "
+              "nested clones are resolved against foreign moots")
+    if not ar:
+        return
     cons = R.need(R.call_nodes("Framer"), "Framer(...) in clone")
     dupt = R.tests(lambda t: src(t) == "name in Framer.Names")
     raises = [n for n in R.cfg.nodes if n.kind == "raise"]
